@@ -59,6 +59,8 @@ def make_results(patterns=None):
     # failed evaluation
     tf = TestEqual(datasets([1.0], [0.1]), datasets([1.0], [0.1]), name='failed')
     yield 'failed', '-', TestResultFailed(tf, 'something went wrong')
+    # as the evaluation task builds it: the message IS the exception that was raised (valjean/gavroche/eval_test_task.py)
+    yield 'failed', 'exception', TestResultFailed(tf, ValueError('bins differ', 3))
     # statistics of tasks
     for statuses in ([], [TaskStatus.DONE], [TaskStatus.DONE, TaskStatus.DONE], [TaskStatus.DONE, TaskStatus.FAILED], [TaskStatus.FAILED, TaskStatus.SKIPPED],
                      [TaskStatus.SKIPPED]):
